@@ -18,7 +18,9 @@ class Joiner:
         self.sa = {}  # A sym -> J sym
         self.sb = {}
         self.phis = []  # (phi, a, b)
-        self.enum_sites = []  # (setter, enumA, enumB, enumJ-without-when)
+        self.enum_sites = []  # (joined enum without when, enumA, enumB, context deltas of A, of B)
+        self._ctx_a = ()
+        self._ctx_b = ()
         self.widen = widen
         self.first = first
         self._delta_cache = {}
@@ -61,15 +63,21 @@ class Joiner:
             return Struct(a.path, fs)
         if ta is Enum and tb is Enum and a.path == b.path:
             vs = {}
+            ctx_a, ctx_b = self._ctx_a, self._ctx_b
             for k in list(a.variants) + [k for k in b.variants if k not in a.variants]:
                 if k in a.variants and k in b.variants:
+                    # what each side knows under "this value is variant k" is context for nested enums
+                    wa_, wb_ = a.when.get(k), b.when.get(k)
+                    self._ctx_a = ctx_a + ((wa_,) if wa_ is not None else ())
+                    self._ctx_b = ctx_b + ((wb_,) if wb_ is not None else ())
                     vs[k] = tuple(self.val(x, y, path + (k, i)) for i, (x, y) in enumerate(zip(a.variants[k], b.variants[k])))
+                    self._ctx_a, self._ctx_b = ctx_a, ctx_b
                 elif k in a.variants:
                     vs[k] = a.variants[k]
                 else:
                     vs[k] = b.variants[k]
             e = Enum(a.path, vs, {})
-            self.enum_sites.append((e, a, b))
+            self.enum_sites.append((e, a, b, ctx_a, ctx_b))
             return e
         if ta is Arr and tb is Arr and len(a.elems) == len(b.elems):
             es = [self.val(x, y, path + (("i", i),)) for i, (x, y) in enumerate(zip(a.elems, b.elems))]
@@ -314,11 +322,11 @@ class Joiner:
             if lb:
                 self.lost_ef_b.setdefault(q.len, set()).update(lb)
         # conditional deltas for enums / booleans
-        for e, ea, eb in self.enum_sites:
+        for e, ea, eb, cxa, cxb in self.enum_sites:
             when = {}
             for k in e.variants:
-                da = self._delta(A, ea.when.get(k), self.sa) if k in ea.variants else None
-                db = self._delta(B, eb.when.get(k), self.sb) if k in eb.variants else None
+                da = self._delta(A, _merge_deltas(cxa + ((ea.when[k],) if k in ea.when else ())), self.sa) if k in ea.variants else None
+                db = self._delta(B, _merge_deltas(cxb + ((eb.when[k],) if k in eb.when else ())), self.sb) if k in eb.variants else None
                 d = da if db is None else (db if da is None else self._join_delta(da, db))
                 if d is not None and (d.iv or d.facts or d.ef):
                     when[k] = d
@@ -334,8 +342,8 @@ class Joiner:
                 w = {}
                 wa, wb = A.when.get(a, {}), B.when.get(b, {})
                 for v in set(va) | set(vb):
-                    da = self._delta(A, wa.get(v), self.sa) if v in va else None
-                    db = self._delta(B, wb.get(v), self.sb) if v in vb else None
+                    da = self._case_delta(A, a, v, wa, self.sa) if v in va else None
+                    db = self._case_delta(B, b, v, wb, self.sb) if v in vb else None
                     d = da if db is None else (db if da is None else self._join_delta(da, db))
                     if d is not None and (d.iv or d.facts):
                         w[v] = d
@@ -477,10 +485,25 @@ class Joiner:
             ef[jl] = tuple(ef.get(jl, ())) + tuple(t for t in ts if t not in ef.get(jl, ()))
         return Delta(iv, facts[:24], base.gen, ef)
 
-    def _delta0(self, X, extra, sx):
+    def _case_delta(self, X, x, v, wx, sx):
+        """What side X knows beyond J when its value x equals v.  If x can take several values on
+        that side and is *defined* there (a comparison, a negation, an overflow flag or a value with
+        its own conditional refinements), the definition is applied first: `let b = p && q;` keeps
+        `b == 1 => p, q` across the merge of the short-circuit arms."""
+        vals = D.values(X.ivof(x), 4)
+        if vals is not None and len(vals) > 1 and (x in X.cmpd or x in X.notd or x in X.ovf or x in X.when):
+            X2 = X.copy()
+            X2.assume_sym(x, D.point(v))
+            if X2.dead:
+                return None
+            return self._delta0(X2, None, sx, like=X)
+        return self._delta(X, wx.get(v), sx)
+
+    def _delta0(self, X, extra, sx, like=None):
         J = self.J
         iv = {}
-        stale = (self.stale_a | self.dead_in_a) if X is self.A else (self.stale_b | self.dead_in_b)
+        side_a = (like if like is not None else X) is self.A
+        stale = (self.stale_a | self.dead_in_a) if side_a else (self.stale_b | self.dead_in_b)
         for s, v in X.iv.items():
             if s in stale:
                 continue
@@ -505,7 +528,7 @@ class Joiner:
         for f in facts:
             for s in f.t:
                 gen[s] = J.gen.get(s, 0)
-        lost = self.lost_ef_a if X is self.A else self.lost_ef_b
+        lost = self.lost_ef_a if side_a else self.lost_ef_b
         ef = {ln: tuple(sorted(ts, key=repr)) for ln, ts in lost.items()} if lost else None
         return Delta(iv, facts, gen, ef)
 
@@ -525,6 +548,31 @@ class Joiner:
         ef = {ln: tuple(t for t in ts if t in b.ef.get(ln, ())) for ln, ts in a.ef.items() if ln in b.ef}
         ef = {ln: ts for ln, ts in ef.items() if ts}
         return Delta(iv, facts, gen, ef)
+
+
+def _merge_deltas(ds):
+    """Conjunction of conditional refinements (all of them hold)."""
+    ds = [d for d in ds if d is not None]
+    if not ds:
+        return None
+    if len(ds) == 1:
+        return ds[0]
+    iv = {}
+    facts = []
+    ef = {}
+    gen = {}
+    for d in ds:
+        for s_, v in d.iv.items():
+            cur = iv.get(s_)
+            iv[s_] = v if cur is None else D.meet(cur, v)
+        for f in d.facts:
+            if f not in facts:
+                facts.append(f)
+        for ln, ts in (d.ef or {}).items():
+            ef[ln] = tuple(ef.get(ln, ())) + tuple(t for t in ts if t not in ef.get(ln, ()))
+        if d.gen:
+            gen.update(d.gen)
+    return Delta(iv, facts, gen or None, ef)
 
 
 def _merge_logs(a, b):
